@@ -445,7 +445,9 @@ func (rs *ruleset) traverse(p packet) fate {
 		return f
 	}
 	for _, t := range []string{"raw", "mangle", "nat"} {
-		if t == "nat" && p.ctstate != "NEW" {
+		// nat: only for the packet that creates the connection, and not again at PREROUTING for a locally
+		// generated connection coming back in through lo (its NAT binding was made at nat/OUTPUT)
+		if t == "nat" && (p.ctstate != "NEW" || (p.hook == "PREROUTING" && p.inIf == "lo")) {
 			continue
 		}
 		v := rs.walkTable(t, &p, &f)
